@@ -6,20 +6,74 @@ import SpyneModel.FlatQs
 namespace SpyneModel.Flat
 open SpyneModel
 
+theorem effPrim_own (F : Facts03) (hB : F.bytesDeclaredWins = true) (d : Bool) (p : PK) : effPrim F d p = ownPrim d p := by
+  cases p <;> simp [effPrim, ownPrim, hB]
+
 mutual
-theorem keyedTy_own (F : Facts03) (hF : F.subNameScope = .member) (own : Option Text) (t : DTy) :
-    keyedTy F own t = ownTy t := by
+theorem keyedTy_own (F : Facts03) (hF : F.subNameScope = .member) (hB : F.bytesDeclaredWins = true) (a : MAttr) (t : DTy) :
+    keyedTy F a t = ownTy a t := by
   match t with
-  | .prim p => rfl
-  | .obj cid fs => simp only [keyedTy, ownTy, keyedFields_own F hF (some own) fs]
-theorem keyedFields_own (F : Facts03) (hF : F.subNameScope = .member) (cont : Option (Option Text)) (fs : List DFld) :
+  | .prim p => simp only [keyedTy, ownTy, effPrim_own F hB]
+  | .obj cid fs => simp only [keyedTy, ownTy, keyedFields_own F hF hB (some a.sub) fs]
+theorem keyedFields_own (F : Facts03) (hF : F.subNameScope = .member) (hB : F.bytesDeclaredWins = true)
+    (cont : Option (Option Text)) (fs : List DFld) :
     keyedFields F cont fs = ownFields fs := by
   match fs with
   | [] => rfl
   | (n, a, occ, t) :: r =>
-    simp only [keyedFields, ownFields, keyedTy_own F hF a.sub t, keyedFields_own F hF cont r]
+    simp only [keyedFields, ownFields, keyedTy_own F hF hB a t, keyedFields_own F hF hB cont r]
     cases cont <;> simp [keyName, hF]
 end
+
+/-! ## sharing -/
+
+mutual
+theorem pruneNode_id (seen : List Nat) (t : LNode) (h : ∀ i, i ∈ idsL t → i ∉ seen) :
+    pruneNode false seen t = (t, seen) := by
+  match t with
+  | .none => rfl
+  | .leaf v => rfl
+  | .leaves vs => rfl
+  | .obj id attrs =>
+    have hid : seen.contains id = false := by
+      have := h id (by simp [idsL])
+      simpa using this
+    simp only [pruneNode, hid, Bool.false_eq_true, if_false]
+    rw [pruneAttrs_id seen attrs (fun i hi => h i (by simp [idsL, hi]))]
+  | .arr items =>
+    simp only [pruneNode]
+    rw [pruneItems_id seen items (fun i hi => h i (by simpa [idsL] using hi))]
+theorem pruneAttrs_id (seen : List Nat) (attrs : List (Text × LNode)) (h : ∀ i, i ∈ idsAttrsL attrs → i ∉ seen) :
+    pruneAttrs false seen attrs = (attrs, seen) := by
+  match attrs with
+  | [] => rfl
+  | (k, v) :: r =>
+    simp only [pruneAttrs]
+    rw [pruneNode_id seen v (fun i hi => h i (by simp [idsAttrsL, hi]))]
+    simp only
+    rw [pruneAttrs_id seen r (fun i hi => h i (by simp [idsAttrsL, hi]))]
+theorem pruneItems_id (seen : List Nat) (items : List LNode) (h : ∀ i, i ∈ idsItemsL items → i ∉ seen) :
+    pruneItems false seen items = (items, seen) := by
+  match items with
+  | [] => rfl
+  | v :: r =>
+    simp only [pruneItems]
+    rw [pruneNode_id seen v (fun i hi => h i (by simp [idsItemsL, hi]))]
+    simp only
+    rw [pruneItems_id seen r (fun i hi => h i (by simp [idsItemsL, hi]))]
+end
+
+/-- with the guard on the root only, a value without a reference back to its root is flattened as its tree:
+    sharing is invisible -/
+theorem encodeShared_tree (F : Facts03) (hF : F.encGuard = .rootOnly) (delim : Text) (fields : List Fld)
+    (id : Nat) (attrs : List (Text × LNode)) (h : id ∉ idsAttrsL attrs) :
+    encodeShared F delim fields (.obj id attrs) = encode delim fields (stripL (.obj id attrs)) := by
+  simp only [encodeShared, hF]
+  rw [show decide (EncGuard.rootOnly = EncGuard.visited) = false from by decide]
+  rw [pruneAttrs_id [id] attrs (fun i hi => by
+    intro hm
+    simp only [List.mem_singleton] at hm
+    exact h (hm ▸ hi))]
 
 /-- a WSDL request starts with `wsdl` (any case), and that is the whole query or `=` follows -/
 theorem isWsdl_firstName (F : Facts03) (hF : F.wsdlRule = .firstName) (qs : Text) (h : isWsdl F qs = true) :
